@@ -401,8 +401,19 @@ func TestEnumTypeCodes(t *testing.T) {
 // FuzzNoPanic: coverage-guided search, all entries (byte 0 entry, bytes 1-2 type).
 func FuzzNoPanic(f *testing.F) {
 	names := append(lib.Names(), extraNames()...)
-	for i := range names {
+	for i, n := range names {
 		f.Add([]byte{byte(i), 0, 7})
+		for _, in := range gen.FixedInputs(n) {
+			f.Add(append([]byte{byte(i), byte(in.Typ >> 8), byte(in.Typ)}, in.Bytes()...))
+		}
+	}
+	// the extra functions get the parser seeds too (key construction, mapping values, ...)
+	for i := len(lib.Names()); i < len(names); i++ {
+		for _, n := range []string{"keys_and_cert.ReadKeysAndCert", "data.ReadMapping", "offline_signature.ReadOfflineSignature", "certificate.ReadCertificate"} {
+			for _, in := range gen.FixedInputs(n)[:2] {
+				f.Add(append([]byte{byte(i), 0, 7}, in.Bytes()...))
+			}
+		}
 	}
 	prop.Fuzz(f, func(b []byte) (Case, bool) {
 		if len(b) < 3 || len(b) > 150000 {
